@@ -669,6 +669,9 @@ def gen_contour(rng, via):
     case.update(gen_data(rng, model))
     k = int(rng.integers(2, 5))
     s = [1.0, 2.0][: int(rng.integers(0, 3))] + [float(np.round(np.exp(rng.uniform(math.log(0.1), math.log(4.5))), 4)) for _ in range(k)]
+    if rng.random() < 0.4:
+        # the far end of the property's range (0, ~8]: 1 - exp(-s^2/2) is within 1e-8 .. 1e-14 of one there, still a float below 1
+        s.append(float(np.round(rng.uniform(4.5, 8.0), 4)))
     case["sigmas"] = s
     return case
 
